@@ -1,6 +1,8 @@
 import Ibx.Gen.San
+import Ibx.Gen.SanFilter
 import Ibx.Model.Css
 import Ibx.Model.TextHtml
+import Ibx.Model.StyleFilter
 /-
   T1 tie for C18: the hand-written sanitiser models use exactly the tables, literals and code shape that the
   regenerated facts (Ibx/Gen/San.lean, re-read from pkg/webui/sanitize/{css,html}.go, pkg/server/web/helpers.go
@@ -79,5 +81,51 @@ theorem wrap_tie :
 theorem linkable_tie :
     Gen.San.linkableLits = [TextHtml.delims] ∧ Gen.San.linkSchemes = some TextHtml.schemes ∧
     Gen.San.linkableSrc = "{ i := strings.IndexAny(url, \":/?#&\") if i < 0 { return true } switch url[i] { case ':': return linkSchemes[strings.ToLower(url[:i])] case '&': return false } return true }" := by decide +kernel
+
+/-! ### the style-tag filter and the two tokenizers (differential parse) -/
+
+/-- html.go constructs its tokenizer with `html.NewTokenizer(r)` and calls nothing on it but the five accessors the
+    model's token stream is made of — NO option setter (AllowCDATA, NextIsNotRawText, SetMaxBuf); `html` is
+    golang.org/x/net/html (not the standard library's); the loop distinguishes exactly the three cases of the model;
+    sanitizeStyleTags discards the buffer on error -/
+theorem filter_tokenizer_tie :
+    Gen.SanFilter.filterTokenizerCtors = ["html.NewTokenizer(r)"] ∧
+    Gen.SanFilter.filterTokenizerMethods = ["Err", "Next", "Raw", "TagAttr", "TagName"] ∧
+    Gen.SanFilter.filterCases = ["html.ErrorToken", "html.StartTagToken,html.SelfClosingTagToken", "default"] ∧
+    Gen.SanFilter.htmlImports = ["bufio", "bytes", "github.com/microcosm-cc/bluemonday", "golang.org/x/net/html", "io", "regexp", "strings"] ∧
+    Gen.SanFilter.sanitizeStyleTagsReturns = ["\"\",err", "b.String(),nil"] := by decide
+
+/-- bluemonday (the version go.mod selects) constructs ITS tokenizer the same way and sets no option either: both
+    passes read the same bytes with the same tokenizer configuration (assumption A2 is about exactly this pair) -/
+theorem policy_tokenizer_tie :
+    Gen.SanFilter.policyTokenizerCtors = Gen.SanFilter.filterTokenizerCtors ∧
+    Gen.SanFilter.policyTokenizerMethods = ["Err", "Next", "Token"] ∧
+    (∀ m ∈ ["AllowCDATA", "NextIsNotRawText", "SetMaxBuf", "Buffered"],
+      m ∉ Gen.SanFilter.filterTokenizerMethods ∧ m ∉ Gen.SanFilter.policyTokenizerMethods) := by decide
+
+/-- the options an x/net/html Tokenizer has in the version in use: the harness classifies every generated input by
+    whether one of them would move a styled start tag (histogram agree:sensitive:*); a new option in a later version
+    stops this obligation -/
+theorem tokenizer_options_tie :
+    Gen.SanFilter.tokenizerMethods = ["AllowCDATA", "Buffered", "Err", "Next", "NextIsNotRawText", "Raw", "SetMaxBuf",
+      "TagAttr", "TagName", "Text", "Token"] ∧
+    Gen.SanFilter.tokenizerCtors = ["NewTokenizer", "NewTokenizerFragment"] := by decide
+
+/-- the elements after whose start tag the tokenizer reads raw text (the directed generator of c18filter.go wraps
+    styled tags in each of them) -/
+theorem tokenizer_raw_tags_tie :
+    Gen.SanFilter.tokenizerRawTags = ["iframe", "noembed", "noframes", "noscript", "plaintext", "script", "style",
+      "textarea", "title", "xmp"] := by decide
+
+/-- x/net/html EscapeString escapes exactly the six bytes the model escapes, to the model's entities -/
+theorem xescape_tie :
+    Gen.SanFilter.escapedChars.map StyleFilter.escB =
+      [StyleFilter.amp, StyleFilter.apos, StyleFilter.lt, StyleFilter.gt, StyleFilter.quot, StyleFilter.cr] ∧
+    Gen.SanFilter.escapeCases = ["'&'->&amp;", "'\\''->&#39;", "'<'->&lt;", "'>'->&gt;", "'\"'->&#34;", "'\\r'->&#13;"] ∧
+    Gen.SanFilter.escapedChars.length = 6 := by decide
+
+/-- the body of styleTagFilter is, token for token, the text Model/StyleFilter.lean was read from -/
+theorem filter_src_tie : Gen.SanFilter.filterSrc =
+    "{ bw := bufio.NewWriter(w) b := make([]byte, 0, 256) z := html.NewTokenizer(r) for { b = b[:0] tt := z.Next() switch tt { case html.ErrorToken: err := z.Err() if err == io.EOF { return bw.Flush() } return err case html.StartTagToken, html.SelfClosingTagToken: name, hasAttr := z.TagName() if !hasAttr { if _, err := bw.Write(z.Raw()); err != nil { return err } continue } b = append(b, '<') b = append(b, name...) for { key, val, more := z.TagAttr() strval := string(val) style := false if strings.ToLower(string(key)) == \"style\" { style = true strval = sanitizeStyle(strval) } if !style || strval != \"\" { b = append(b, ' ') b = append(b, key...) b = append(b, '=', '\"') b = append(b, []byte(html.EscapeString(strval))...) b = append(b, '\"') } if !more { break } } if tt == html.SelfClosingTagToken { b = append(b, '/') } if _, err := bw.Write(append(b, '>')); err != nil { return err } default: if _, err := bw.Write(z.Raw()); err != nil { return err } } } }" := rfl
 
 end Ibx.Tie.San
